@@ -76,6 +76,105 @@ def _hir_has(node, pred, depth=0):
     return False
 
 
+# Crate items the rule tables mention by path (collected from engines/*.py and spec.py).  Used for *moves*: an item of
+# this list that is gone while exactly one item with the same name exists in another module is taken to be that item.
+KNOWN = [
+    ("algorithms::capture::Capture", "adt"), ("algorithms::compact::Compact", "adt"), ("algorithms::hook::DiffHook", "trait"),
+    ("algorithms::hook::NoFinishHook", "adt"), ("algorithms::patience::Patience", "adt"), ("algorithms::replace::Replace", "adt"),
+    ("algorithms::utils::IdentifyDistinct", "adt"), ("algorithms::utils::UniqueItem", "adt"), ("iter::ChangesIter", "adt"),
+    ("text::Deadline", "adt"), ("text::TextDiff", "adt"), ("text::TextDiffConfig", "adt"),
+    ("text::abstraction::DiffableStr", "trait"), ("text::abstraction::DiffableStrRef", "trait"),
+    ("text::inline::InlineChange", "adt"), ("text::inline::MultiLookup", "adt"), ("types::Change", "adt"), ("types::ChangeTag", "adt"),
+    ("types::DiffOp", "adt"), ("types::DiffTag", "adt"), ("udiff::MissingNewlineHint", "adt"), ("udiff::UnifiedDiff", "adt"),
+    ("udiff::UnifiedDiffHunk", "adt"), ("udiff::UnifiedDiffHunkRange", "adt"), ("udiff::UnifiedHunkHeader", "adt"),
+    ("utils::TextDiffRemapper", "adt"), ("utils::SliceRemapper", "adt"),
+    ("algorithms::compact::cleanup_diff_ops", "fn"), ("algorithms::compact::shift_diff_ops_down", "fn"),
+    ("algorithms::compact::shift_diff_ops_up", "fn"), ("algorithms::lcs::make_table", "fn"), ("algorithms::myers::conquer", "fn"),
+    ("algorithms::myers::find_middle_snake", "fn"), ("algorithms::myers::split_at", "fn"),
+    ("algorithms::utils::common_prefix_len", "fn"), ("algorithms::utils::common_suffix_len", "fn"), ("algorithms::utils::unique", "fn"),
+    ("common::capture_diff_deadline", "fn"), ("common::group_diff_ops", "fn"), ("common::get_diff_ratio", "fn"),
+    ("deadline_support::deadline_exceeded", "fn"), ("deadline_support::duration_to_deadline", "fn"),
+    ("text::inline::iter_inline_changes", "fn"), ("text::inline::push_values", "fn"), ("udiff::unified_diff", "fn"),
+]
+
+
+def _moves(facts):
+    """[(actual, canonical)] for whole modules that were renamed and for single known items that moved to another module."""
+    fns = [f for f in facts["fns"] if f.get("kind") != "Closure"]
+    free = {}
+    for f in fns:
+        if not f.get("impl"):
+            free.setdefault(_short(f["path"]).rsplit("::", 1)[-1], []).append(_short(f["path"]))
+    items = {}
+    for a in facts["items"]["adts"]:
+        items.setdefault(a["path"].rsplit("::", 1)[-1], []).append(a["path"])
+    for t in facts["items"]["traits"]:
+        items.setdefault(t["path"].rsplit("::", 1)[-1], []).append(t["path"])
+    present = {a["path"] for a in facts["items"]["adts"]} | {t["path"] for t in facts["items"]["traits"]} | \
+        {_short(f["path"]) for f in fns}
+    known_paths = {p for p, _ in KNOWN}
+    out = []
+    # (1) a whole module renamed (file renamed): every known item of module M is missing and all of them are found, under
+    # the same names, in one other module M2 that holds no known item of its own
+    by_module = defaultdict(list)
+    for p, kind in KNOWN:
+        by_module[p.rsplit("::", 1)[0]].append((p, kind))
+    for mod, lst in by_module.items():
+        if any(p in present for p, _ in lst):
+            continue
+        targets = set()
+        ok = True
+        for p, kind in lst:
+            last = p.rsplit("::", 1)[-1]
+            cands = [c for c in (free.get(last, []) if kind == "fn" else items.get(last, [])) if c not in known_paths]
+            mods = {c.rsplit("::", 1)[0] for c in cands}
+            if kind == "fn" and not cands:
+                continue            # a private function may have been renamed as well: roles take care of it
+            if len(mods) != 1:
+                ok = False
+                break
+            targets |= mods
+        if ok and len(targets) == 1:
+            m2 = next(iter(targets))
+            if m2 != mod and not any(k.startswith(m2 + "::") or k == m2 for k in known_paths):
+                out.append((m2, mod))
+    moved_mods = {a for a, _ in out}
+    # (2) single items that moved
+    for p, kind in KNOWN:
+        if p in present:
+            continue
+        last = p.rsplit("::", 1)[-1]
+        cands = [c for c in (free.get(last, []) if kind == "fn" else items.get(last, []))
+                 if c not in known_paths and c.rsplit("::", 1)[0] not in moved_mods]
+        if len(cands) == 1 and cands[0] != p:
+            out.append((cands[0], p))
+    return out
+
+
+def _apply(facts, ren):
+    """Rewrite paths in the facts (source excerpts, files and messages keep the real names)."""
+    ren = [(a, c) for a, c in ren if a != c]
+    if not ren:
+        return facts
+    text = json.dumps(facts)
+    for actual, canon in sorted(ren, key=lambda x: -len(x[0])):
+        text = re.sub(r"(?<![A-Za-z0-9_:])" + re.escape(actual) + r"(?![A-Za-z0-9_])", canon, text)
+    new = json.loads(text)
+
+    def restore(a, b):
+        if isinstance(a, dict):
+            for k, v in a.items():
+                if k in ("src", "file", "msg") and isinstance(v, str):
+                    b[k] = v
+                elif isinstance(v, (dict, list)) and k in b:
+                    restore(v, b[k])
+        elif isinstance(a, list):
+            for x, y in zip(a, b):
+                restore(x, y)
+    restore(facts, new)
+    return new
+
+
 def discover(facts):
     """[(actual path, canonical path)] of renamed role items (functions and types)."""
     fns = [f for f in facts["fns"] if f.get("kind") != "Closure"]
@@ -255,33 +354,22 @@ def _diffop_helpers(facts, fns, spaths):
 
 
 def canonicalise(facts):
-    """Facts with renamed role items rewritten to their canonical paths; records what was rewritten in facts['_renamed']."""
+    """Facts with moved / renamed role items rewritten to their canonical paths; records what was rewritten in
+    facts['_renamed']."""
+    done = []
     try:
-        ren = discover(facts)
+        mv = [(a, c) for a, c in _moves(facts) if a != c]
+        if mv:
+            facts = _apply(facts, mv)
+            done += mv
+        ren = [(a, c) for a, c in discover(facts) if a != c]
     except Exception as e:        # never let the pre-pass break a run: the rules then see the tree as it is
-        facts["_renamed"] = [("error", repr(e))]
+        facts["_renamed"] = done + [("error", repr(e))]
         return facts
-    ren = [(a, c) for a, c in ren if a != c]
     if not ren:
-        facts["_renamed"] = []
+        facts["_renamed"] = done
         return facts
-    # `src` excerpts and positions keep the real names: protect them while rewriting paths
-    text = json.dumps(facts)
-    for actual, canon in sorted(ren, key=lambda x: -len(x[0])):
-        text = re.sub(re.escape(actual) + r"(?![A-Za-z0-9_])", canon.replace("\\", "\\\\"), text)
-    new = json.loads(text)
-    # restore source excerpts from the original
-    def restore(a, b):
-        if isinstance(a, dict):
-            for k, v in a.items():
-                if k in ("src", "file", "msg") and isinstance(v, str):
-                    b[k] = v
-                elif isinstance(v, (dict, list)) and k in b:
-                    restore(v, b[k])
-        elif isinstance(a, list):
-            for x, y in zip(a, b):
-                restore(x, y)
-    restore(facts, new)
+    new = _apply(facts, ren)
     # method-call nodes carry the bare method name next to the resolved path
     last = {c: (a.rsplit("::", 1)[-1], c.rsplit("::", 1)[-1]) for a, c in ren}
 
@@ -303,5 +391,5 @@ def canonicalise(facts):
             for v in n:
                 fix_names(v)
     fix_names(new["fns"])
-    new["_renamed"] = ren
+    new["_renamed"] = done + ren
     return new
